@@ -11,8 +11,8 @@ META = {
   "functions": ["lowpass.pole/z/pole_exp/z_exp", "highpass.pole/z/pole_exp/z_exp", "resonator.poles_exp/freq_poles_exp/z_exp/"
                 "freq_z_exp", "comb.fb/tau/ff", "gammatone.sampled/slaney/klapuri", "ZFilter algebra and freq_response underneath"],
   "bounds": {"quick": "cut-off / centre frequency: every angle in the open interval (0, pi) (symbolic (cos, sin) pair); bandwidth "
-                      "any positive real; comb delays 1..3 with symbolic alpha / tau>0; gammatone: klapuri and sampled with "
-                      "eta=1 (slaney only in the thorough tier, as an optional attempt: its sqrt(2)-laden zero tests hit the solver cap); stream-valued parameters: streams of 2 symbolic angles for the 8 lowpass/highpass designs",
+                      "any positive real; comb delays 1..3 with symbolic alpha / tau>0; gammatone: klapuri claimed, sampled eta=1 "
+                      "attempted but claimed only in the thorough tier (slaney only in the thorough tier, as an optional attempt: its sqrt(2)-laden zero tests hit the solver cap); stream-valued parameters: streams of 2 symbolic angles for the 8 lowpass/highpass designs",
              "thorough": "adds gammatone.sampled eta<=3 (optional beyond 2), comb delays <=5, monotonicity on two probe frequencies"},
   "outside": "IEEE rounding; the documented 'unreliable outside [0, pi/6]' cut-off accuracy of the *_exp strategies (only their "
              "gain / pole clauses are claimed, as in the property); numeric value of exp (contract stub)",
@@ -276,7 +276,9 @@ def tasks(tier, seed):
     T.append(("h_comb", {"strategy": strat, "D": 3 if not big else 5, "N": 5 if not big else 8, "inf": True}))
   T.append(("h_gammatone", {"strategy": "klapuri"}))
   if big: T.append(("h_gammatone", {"strategy": "slaney"}, {"optional": True}))
-  T.append(("h_gammatone", {"strategy": "sampled", "eta": 1}))
+  # sampled eta=1: its Jury obligation takes ~20 s of nlsat here and went over a 30 s cap on a loaded machine:
+  # attempted (optional) in the quick tier, claimed in the thorough tier with a 150 s cap
+  T.append(("h_gammatone", {"strategy": "sampled", "eta": 1}, {"optional": not big, "query_s": 150}))
   if big:
     T.append(("h_gammatone", {"strategy": "sampled", "eta": 2}, {"optional": True}))
     T.append(("h_gammatone", {"strategy": "sampled", "eta": 3}, {"optional": True}))
